@@ -1023,6 +1023,8 @@ class Folder:
             try:
                 return _copy.deepcopy(args[0]) if fn != "copy.copy" else _copy.copy(args[0])
             except Exception as ex:
+                if isinstance(ex, TypeError) and "not supported between instances" in str(ex):
+                    raise Raised("TypeError", e)          # Python itself refuses to order these values
                 raise Undecidable(f"{fn}: {ex}")
         if fn in ("comb", "scipy.special.comb", "math.comb", "special.comb") and len(args) == 2 and all(isinstance(a, int) and not isinstance(a, bool) for a in args) and \
                 set(kwargs) <= {"exact"}:
@@ -1038,6 +1040,8 @@ class Folder:
             try:
                 return [tuple(x) for x in f(*seqs, **kwargs)]
             except TypeError as ex:
+                if isinstance(ex, TypeError) and "not supported between instances" in str(ex):
+                    raise Raised("TypeError", e)          # Python itself refuses to order these values
                 raise Undecidable(f"{fn}: {ex}")
         if not getattr(self, "real_arrays", False) and fn in ("np.sum", "numpy.sum") and len(args) == 1 and isinstance(args[0], (list, tuple, IntArray)) and not kwargs:
             return sum(list(args[0]))
@@ -1083,6 +1087,8 @@ class Folder:
             try:
                 return {"next": next, "iter": iter}[fn](*args)
             except Exception as ex:
+                if isinstance(ex, TypeError) and "not supported between instances" in str(ex):
+                    raise Raised("TypeError", e)          # Python itself refuses to order these values
                 raise Undecidable(f"{fn}: {ex}")
         if fn in ("max", "min") and len(args) == 1 and set(kwargs) <= {"default"} and isinstance(args[0], (list, tuple, set, frozenset, IntArray, range)):
             items = list(args[0])
@@ -1093,6 +1099,8 @@ class Folder:
             try:
                 return (max if fn == "max" else min)(items)
             except TypeError as ex:
+                if isinstance(ex, TypeError) and "not supported between instances" in str(ex):
+                    raise Raised("TypeError", e)          # Python itself refuses to order these values
                 raise Undecidable(f"{fn}: {ex}")
         if fn in ("itemgetter", "operator.itemgetter") and args and not kwargs:
             ok_, idxs = self._np_concrete(list(args))
@@ -1143,11 +1151,15 @@ class Folder:
                      "zip": lambda *a: list(zip(*a)), "enumerate": lambda x: list(enumerate(x))}[fn]
                 return f(*args)
             except Exception as ex:
+                if isinstance(ex, TypeError) and "not supported between instances" in str(ex):
+                    raise Raised("TypeError", e)          # Python itself refuses to order these values
                 raise Undecidable(f"{fn}: {ex}")
         if fn in ("re.split", "re.findall", "re.sub", "re.match", "re.search") and not kwargs and all(isinstance(a, str) for a in args):
             try:
                 r = getattr(_re, fn[3:])(*args)
             except Exception as ex:
+                if isinstance(ex, TypeError) and "not supported between instances" in str(ex):
+                    raise Raised("TypeError", e)          # Python itself refuses to order these values
                 raise Undecidable(f"{fn}: {ex}")
             if fn in ("re.match", "re.search"):
                 return None if r is None else Opaque("re.Match")
